@@ -4,9 +4,9 @@
    for every name conversion); [compile] instantiates them with lib/Strcase.v. *)
 From Coq Require Import String List NArith Bool.
 From J5V.lib Require Import Outcome Strcase.
-From J5V.model Require Import J5sAst Desc J5sWalk J5sLink J5sConvert J5sContract J5sSymbols J5sTypeNames J5sValid J5sCorr.
+From J5V.model Require Import J5sRefSpec J5sAst Desc J5sWalk J5sLink J5sConvert J5sContract J5sSymbols J5sTypeNames J5sValid J5sCorr.
 From J5V.gen Require ImportsGen.
-From J5V.proofs Require Import J5sProofs J5sContractProofs J5sLinkProofs J5sResolveProofs J5sResolveCompleteProofs J5sServiceProofs J5sTotalProofs J5sSymbolProofs J5sCompileProofs J5sSubPkgProofs J5sDepsProofs J5sNameProofs J5sTypeNameProofs J5sWitnessProofs J5sStrictProofs StrcaseProofs J5sStrcaseProofs J5sInfraProofs.
+From J5V.proofs Require Import J5sProofs J5sContractProofs J5sLinkProofs J5sResolveProofs J5sResolveCompleteProofs J5sServiceProofs J5sTotalProofs J5sSymbolProofs J5sCompileProofs J5sSubPkgProofs J5sDepsProofs J5sNameProofs J5sTypeNameProofs J5sWitnessProofs J5sStrictProofs StrcaseProofs J5sStrcaseProofs J5sInfraProofs J5sRefSpecProofs.
 Import ListNotations.
 Local Open Scope N_scope.
 
@@ -344,6 +344,37 @@ Proof.
   exists D. split; [exact Hc|]. exact (contract_strict_of_plain to_snake to_camel to_screaming_snake bd pkg D Hp Hok).
 Qed.
 Print Assumptions C02_full.
+
+(* ---- the reference clause of `valid` read declaratively.  `valid` evaluates, for every
+   reference, J5sValid.ref_is = "the model's resolver returns a declaration of the wanted
+   kind".  In a valid bundle that is exactly J5sRefSpec.ref_declared, a condition on the source
+   (own package / well-known package written in full / the LAST import line that can be written
+   with the prefix - alias, full name, name without version, package of an imported file -;
+   a declaration of that name and kind among the exports): soundness and completeness of the
+   resolver w.r.t. the documented import rule, in one statement *)
+Theorem C02_reference_clause_declarative : forall bd f,
+  valid bd = true -> In (BJ f) bd ->
+  exists im, import_map (jf_imports f) [] = Ok im /\
+    forall r we, ref_is (mkEnv (j5s_pkg f) im (pkg_exports to_camel bd)) r we = true <->
+                 ref_declared (j5s_pkg f) (jf_imports f) (pkg_exports to_camel bd) r we.
+Proof. exact (valid_reference_clause to_snake to_camel to_screaming_snake). Qed.
+Print Assumptions C02_reference_clause_declarative.
+
+(* the same for any environment: import lines well-formed, exported names distinct *)
+Theorem C02_resolver_sound_and_complete : forall this imports im exports,
+  import_map imports [] = Ok im ->
+  (forall p ex, exports p = Some ex -> J5sValid.distinct (map tr_name ex) = true) ->
+  forall r we, ref_is (mkEnv this im exports) r we = true <-> ref_declared this imports exports r we.
+Proof. exact ref_is_iff_declared. Qed.
+Print Assumptions C02_resolver_sound_and_complete.
+
+Example C02_reference_example :
+  (* import foo.v1 ; import foo.v2 : the prefix "foo" means foo.v2 (the last line that claims it) *)
+  let imports := [mkImport (b "foo.v1") []; mkImport (b "foo.v2") []] in
+  option_map import_pkg (import_for imports (b "foo")) = Some (b "foo.v2") /\
+  option_map import_pkg (import_for imports (b "foo.v1")) = Some (b "foo.v1") /\
+  import_for imports (b "bar") = None.
+Proof. cbv zeta. repeat split; vm_compute; reflexivity. Qed.
 
 (* ---- WHICH infrastructure files a construct needs: the model's import lists against the tables
    the translator reads off fields.go / conversion.go / service.go on every run (per switch arm /
